@@ -207,6 +207,9 @@ QuicCorrupt(kv, kind, idx, off) ==
       [] kind = "zerokey"  -> InsertAt(ch, CI(idx), PairChunks("", "x"))                      \* before pair idx (idx = Len+1: at the end)
       [] kind = "dupkey"   -> ch \o PairChunks(kv[idx][1], kv[idx][2])                         \* pair idx once more at the end
       [] kind = "dupkeyx"  -> ch \o PairChunks(kv[idx][1], "x")                                \* same key, another value
+      [] kind = "dupkeyempty" -> ch \o PairChunks(kv[idx][1], "")                               \* same key once more, with a zero-length value
+      [] kind = "emptyfirst"  -> InsertAt(ch, CI(idx), PairChunks(kv[idx][1], ""))             \* the zero-length occurrence comes first
+      [] kind = "emptyval"    -> [ch EXCEPT ![CI(idx) + 2] = LChunk(0), ![CI(idx) + 3] = DChunk("")]   \* a typed value of length zero
       [] kind = "badutf8k" -> [ch EXCEPT ![CI(idx) + 1].utf8 = FALSE]                          \* first key byte := 0xff
       [] kind = "badutf8v" -> [ch EXCEPT ![CI(idx) + 3].utf8 = FALSE]                          \* first value byte := 0xff
       [] kind = "lenoverk" -> [ch EXCEPT ![CI(idx)].v = Size(ch, CI(idx) + 1) + 1]             \* key length := rest + 1
@@ -267,6 +270,8 @@ CorruptOpsOf(kv) ==
     { COp("quic", "truncate", kv, 0, off) : off \in 0..(QuicLen(kv) - 1) }
     \cup { COp("quic", "zerokey", kv, i, 0) : i \in 1..(n + 1) }
     \cup { COp("quic", k, kv, i, 0) : k \in {"dupkey", "dupkeyx", "badutf8k", "badutf8v", "lenoverk", "lenoverv"}, i \in 1..n }
+    \cup { COp("quic", k, kv, i, 0) : k \in {"dupkeyempty", "emptyfirst"}, i \in 1..n }
+    \cup { COp("quic", "emptyval", kv, i, 0) : i \in { j \in 1..n : kv[j][1] \in NumKeys \/ kv[j][1] = "reconnect" } }
     \cup { COp("url", "zerokey", kv, i, 0) : i \in 1..(n + 1) }
     \cup { COp("url", k, kv, i, 0) : k \in {"dupkey", "dupkeyx", "noval"}, i \in 1..n }
     \cup { COp("kv", k, kv, i, 0) : k \in {"badnum", "emptynum", "fracnum"}, i \in { j \in 1..n : kv[j][1] \in NumKeys } }
